@@ -300,8 +300,13 @@ def _run_periodic(case):
 # ------------------------------------------------------------------------------------------------ rt-interval
 def _build_interval(case):
     from reactivex.scheduler import CurrentThreadScheduler
+    from reactivex.scheduler.currentthreadscheduler import CurrentThreadSchedulerSingleton
 
-    CurrentThreadScheduler.singleton()  # build the per-class singleton map now, so that every run of the case sees the same code path
+    # subscribe() goes through the per-thread CurrentThreadScheduler singleton and its thread-local trampoline: start every run
+    # from the same state (empty per-thread maps, per-class map present) so that pooled OS threads can be reused across runs
+    CurrentThreadScheduler._global.clear()
+    CurrentThreadSchedulerSingleton._local = type(CurrentThreadSchedulerSingleton._local)()
+    CurrentThreadScheduler.singleton()
     handled, inv, terminal = [], [], []
     sched = _make(case["kind"], True, handled)
     ctx = {"handled": handled, "inv": inv, "terminal": terminal}
@@ -391,9 +396,7 @@ def _judge_interval(case, ctx, res):
 
 
 def _run_interval(case):
-    # subscribe() goes through the per-thread CurrentThreadScheduler singleton: logical threads must not share OS threads
-    # across runs (reuse_threads=False), otherwise the second run of a case finds the singleton already built
-    kw = {"time_limit_s": (case["t0"] + case["horizon"] + _MARGIN_MS) / 1000.0, "max_steps": 60000, "reuse_threads": False}
+    kw = {"time_limit_s": (case["t0"] + case["horizon"] + _MARGIN_MS) / 1000.0, "max_steps": 60000}
     return detrun.drive(
         case, lambda: _build_interval(case), lambda ctx, res: _judge_interval(case, ctx, res), culprit=f"{case['op']}|{case['kind']}", kw=kw,
         accept=lambda res: not res.budget_exceeded,
